@@ -29,6 +29,8 @@ ASSUMPTIONS = [
     "10-30 steps; forward propagation from the orbit's own date with the propagator's own step",
     "an impulse may take effect anywhere between its date and one step later: magnitude is checked "
     "sharply (2 theta^2, theta = angle swept in one step), direction to 1.5 theta",
+    "continuous burns last 0.2 .. 8 steps, or (1 case in 9) 2 h .. 2 days on a MEO / GEO orbit at a 120 s step; "
+    "construction (|accel| x duration = |dv|) is checked for durations from 1 us to 10 days",
     "continuous burns: Runge-Kutta stages sample the thrust window, so the delivered delta-v may differ "
     "from the stated one by the quadrature of the two edges, bounded by |accel| x step when an edge is "
     "off the grid (the library's value is at most 2/3 of that); with both edges on the grid the full "
@@ -188,12 +190,30 @@ def check_triads(case):
 # ------------------------------------------------------------------ projection
 
 
+DAY_US = 86400 * 10**6
+
+
+@st.composite
+def durations_us(draw):
+    """burn lengths from microseconds to 10 days: low-thrust burns of days are ordinary"""
+    k = draw(st.integers(0, 9))
+    if k < 4:
+        return draw(go.uniform_int(10**5, 7200 * 10**6))
+    if k == 4:
+        return int(10 ** draw(go.uniform(0.0, 6.0)))            # 1 us .. 1 s
+    if k < 7:
+        return draw(st.integers(1, 10)) * DAY_US                 # exactly N days
+    if k == 7:
+        return draw(st.integers(1, 9)) * DAY_US + draw(st.sampled_from([1, 10**6, 3600 * 10**6]))
+    return draw(go.uniform_int(7200 * 10**6, 10 * DAY_US))       # hours .. 10 days (N days + fraction)
+
+
 @st.composite
 def projection_case(draw):
     hyp = draw(st.integers(0, 9)) < 3
     return dict(el=draw(go.elements(elliptic=not hyp, hyperbolic=hyp)), dv=draw(vec3()),
                 tag=draw(st.sampled_from(TAGS)), kind=draw(st.sampled_from(["impulsive", "cont-dv", "cont-accel"])),
-                duration_us=draw(go.uniform_int(10**5, 7200 * 10**6)),
+                duration_us=draw(durations_us()),
                 date_pos=draw(st.sampled_from(["start", "stop", "median", "Median", "STOP"])),
                 form=draw(st.sampled_from(["cartesian", "cartesian", "keplerian", "equinoctial"])),
                 t=draw(go.uniform_int(0, 10 * 365 * 86400 * 10**6)))
@@ -279,7 +299,12 @@ def check_projection(case):
                 raise Violation("man-validation", f"ContinuousMan accepted {kw}")
     if not np.array_equal(np.asarray(orb.base, float), before) or orb.form.name != case["form"]:
         raise Violation("man-input-mutated", "dv()/accel() changed the orbit")
-    return dict(nt=True, cls=el_classes(el) + [f"tag:{tag}", case["kind"], f"form:{case['form']}"], ratio=worst)
+    cls = el_classes(el) + [f"tag:{tag}", case["kind"], f"form:{case['form']}"]
+    if case["kind"] != "impulsive":
+        d_us = case["duration_us"]
+        cls.append("dur<1s" if d_us < 10**6 else "dur<1d" if d_us < DAY_US else
+                   "dur=Ndays" if d_us % DAY_US == 0 else "dur>1d")
+    return dict(nt=True, cls=cls, ratio=worst)
 
 
 # ------------------------------------------------------------------ attached frame
@@ -609,14 +634,28 @@ def check_impulse(case):
 
 @st.composite
 def continuous_case(draw):
-    hyp = draw(st.integers(0, 9)) < 2
-    el = draw(go.elements(elliptic=not hyp, hyperbolic=hyp, emax_ell=0.9, rp_range=(1.03, 8.0), hmax=1.5, emax_hyp=4.0))
-    h_us, _ = draw(grid())
+    long_burn = draw(st.integers(0, 8)) == 0
+    if long_burn:
+        # low-thrust burn of hours to two days on a MEO / GEO orbit, coarse step (<= 1450 steps)
+        el = draw(go.elements(hyperbolic=False, emax_ell=0.3, rp_range=(3.0, 7.0)))
+        h_us = 120 * 10**6
+    else:
+        hyp = draw(st.integers(0, 9)) < 2
+        el = draw(go.elements(elliptic=not hyp, hyperbolic=hyp, emax_ell=0.9, rp_range=(1.03, 8.0), hmax=1.5, emax_hyp=4.0))
+        h_us, _ = draw(grid())
     lead = draw(st.integers(2, 4))
-    # start within [2, 5) steps; duration 0.2 .. 8 steps
+    # start within [2, 5) steps; duration 0.2 .. 8 steps (long burns: 2 h .. 48 h)
     start = draw(instant(h_us, lead * h_us, (lead + 1) * h_us))
     k = draw(st.integers(0, 5))
-    if k < 2:
+    if long_burn:
+        if k < 2:
+            dur = draw(st.sampled_from([1, 1, 2])) * DAY_US + draw(st.sampled_from([0, 0, 1, 2 * 3600 * 10**6]))
+        elif k == 2:
+            dur = draw(st.integers(60, 1440)) * h_us
+        else:
+            dur = draw(go.uniform_int(2 * 3600 * 10**6, 2 * DAY_US))
+        dur = min(dur, 2 * DAY_US)
+    elif k < 2:
         dur = draw(st.integers(1, 8)) * h_us
     elif k == 2:
         dur = draw(st.integers(1, 8)) * h_us + draw(st.sampled_from([-1, 1]))
@@ -675,6 +714,15 @@ def check_continuous(case):
     delivered_edges = 0.0   # what the steps touching an edge of the window gained
     interior = 0
     thmax = 0.0
+    # long burns: the exact thrust arc is integrated for 12 of the whole steps, the others get the cheap magnitude test
+    first_in = -(-start // h_us)
+    last_in = (stop - 1) // h_us - 1
+    n_in = max(0, last_in - first_in + 1)
+    if n_in > 16:
+        sampled = set(range(first_in, first_in + 4)) | set(range(last_in - 3, last_in + 1))
+        sampled |= {first_in + (k * n_in) // 5 for k in range(1, 5)}
+    else:
+        sampled = None
     for j in range(n):
         lo, hi = j * h_us, (j + 1) * h_us
         dr, dv = float(np.linalg.norm(res[j][:3])), float(np.linalg.norm(res[j][3:]))
@@ -692,6 +740,15 @@ def check_continuous(case):
             # thrust during the whole step: what the step gained = (exact arc with thrust) - (exact free arc),
             # up to the difference of the Runge-Kutta truncation errors of the two arcs (theta^4 |accel| step)
             interior += 1
+            if sampled is not None and j not in sampled:
+                want_dv = amag * h
+                tol = want_dv * (3 * theta**2 + 1e-9) + floor
+                worst = max(worst, abs(dv - want_dv) / tol)
+                if abs(dv - want_dv) > tol:
+                    raise Violation("burn-full-step", f"step {j} -> {j + 1} lies inside the burn: velocity gained {dv!r} m/s, "
+                                    f"|accel| x step = {want_dv!r} m/s (stated dv {float(np.linalg.norm(dvv))!r} m/s over {secs} s)",
+                                    step=j)
+                continue
             arc, err = ig.burn(ys[j], h, mu, acc, frame)
             want = arc - tb.propagate_uv(ys[j], h, mu)
             d = float(np.linalg.norm(res[j][3:] - want[3:]))
@@ -731,7 +788,8 @@ def check_continuous(case):
     vmin = min(vperp(y) for y in ys)
     # end state against the reference integration with thrust on [start, stop)
     t_end = n * h
-    ref, err = ig.propagate_with_burns(c0, t_end, mu, burns=[(start / 1e6, stop / 1e6, acc, frame)])
+    ref, err = ig.propagate_with_burns(c0, t_end, mu, burns=[(start / 1e6, stop / 1e6, acc, frame)],
+                                       hmax=1.0 if sampled is None else 30.0)
     free_lib = np.asarray(c0, float)
     for _ in range(n):
         free_lib = np.asarray(ig.rk4_step(free_lib, h, mu))  # the library's own maneuver-free twin (bit for bit)
@@ -741,7 +799,7 @@ def check_continuous(case):
     sweep = sum(theta_of(ys, j, h) for j in range(n) if (j + 1) * h_us > start) + total / vmin
     # quadrature of the edges (a velocity error up to |accel| step, carried for `sweep` radians), plus the
     # part of the integrator's truncation error that does not cancel between the twins
-    if on_grid:
+    if on_grid and sampled is None:
         vtol = amag * h * (0.05 + 0.5 * sweep) + 1e-9 + 10 * err
     else:
         vtol = amag * h * (1 + 3 * sweep) + 1e-9 + 10 * err
@@ -762,6 +820,10 @@ def check_continuous(case):
                             "both-edges-on-grid" if on_grid else "edge-off-grid"]
     if dur < h_us:
         cls.append("shorter-than-a-step")
+    if dur >= DAY_US:
+        cls.append("burn>=1day")
+    elif sampled is not None:
+        cls.append("burn-hours")
     if capped:
         cls.append("dv-capped")
     return dict(nt=(not on_grid) or el["e"] > 1, cls=cls, ratio=worst,
@@ -887,7 +949,7 @@ FACETS = [
           quick=(8, 60), thorough=(16, 600)),
     Facet("continuous_delivery", lambda s, t: continuous_case(), check_continuous, setup=setup,
           rule="a burn edge off the integration grid, or a hyperbolic state",
-          quick=(8, 40), thorough=(16, 400)),
+          quick=(16, 20), thorough=(32, 200)),
     Facet("dkep", lambda s, t: dkep_case(), check_dkep, setup=setup,
           rule="every case; classes tiny-or-zero (|da| <= 10 m, plane change <= 1e-6 rad, all zero) and hyperbolic reported",
           quick=(4, 600), thorough=(8, 6000)),
